@@ -1,7 +1,7 @@
 (* PatternInst.v — oracle entry point for C13: the models (tag 1, 3, 4) and the specs (tag 2, 3)
    of KeyMatch.v / Glob.v / IpMatch.v behind the generic wire protocol.  No proofs. *)
 From Coq Require Import List NArith Bool.
-From PyCasbin Require Import Base PatBase KeyMatch Glob IpMatch.
+From PyCasbin Require Import Base PatBase KeyMatch KeyBind Glob IpMatch.
 Import ListNotations.
 Local Open Scope N_scope.
 
@@ -22,10 +22,16 @@ Definition spec_row (p : str) (vars : list str) (k : str) : val :=
   VL [ vbool (key_ok k);
        vbool (km_spec p k); vstr (kg_spec p k);
        vbool (seg_match (parse2 p) k); vbool (seg_match (parse3 p) k);
-       vbool (km4_spec p k); vbool (seg_match (parse5 p) (before_qm k));
+       vbool (km4_bind_spec (tokens5 p) k); vbool (seg_match (parse5 p) (before_qm k));
        vbool (gspec p k);
        vlist (fun v => vlist vstr (get_candidates (tokens2 p) k v)) vars;
-       vlist (fun v => vlist vstr (get_candidates (tokens3 p) k v)) vars ].
+       vlist (fun v => vlist vstr (get_candidates (tokens3 p) k v)) vars;
+       vlist (fun v => vstr (get2_spec (tokens2 p) k v)) vars;
+       vbool (km4_spec p k) ].
+
+Definition doc_flags (p : str) : val :=
+  VL [vbool (doc2 p); vbool (doc3 p); vbool (doc4s p); vbool (doc5 p);
+      vbool (str_eqb p [cSTAR]); vbool (get2_docs p)].
 
 Definition oracle_C13 (tag : N) (v : val) : val :=
   match tag, v with
@@ -39,9 +45,7 @@ Definition oracle_C13 (tag : N) (v : val) : val :=
   | 2, VL [p; ks; vs] =>
       match as_str p, as_listof as_str ks, as_listof as_str vs with
       | Some p, Some ks, Some vs =>
-          VL [ VL [vbool (doc2 p); vbool (doc3 p); vbool (doc4 p); vbool (doc5 p);
-                   vbool (str_eqb p [cSTAR])];
-               vlist (spec_row p vs) ks ]
+          VL [ doc_flags p; vlist (spec_row p vs) ks ]
       | _, _, _ => vbad
       end
   (* ip_match: model, documented-form flag, spec *)
@@ -62,7 +66,7 @@ Definition oracle_C13 (tag : N) (v : val) : val :=
   (* documented-form flags only *)
   | 5, p =>
       match as_str p with
-      | Some p => VL [vbool (doc2 p); vbool (doc3 p); vbool (doc4 p); vbool (doc5 p)]
+      | Some p => doc_flags p
       | None => vbad
       end
   | _, _ => vbad
